@@ -851,6 +851,21 @@ class Executor(object):
             outs = nxt
         return res + [(s, "ok", VT(tm.concat(*pieces) if pieces else tm.S(""))) for (s, pieces) in outs]
 
+    def e_Yield(self, node, st, fr):
+        if "yielded" not in st.ghost:
+            raise Unsupported("yield outside a generator function under execution")
+        if node.value is None:
+            raise Unsupported("bare yield")
+
+        def fn(s, v):
+            if not (isinstance(v, VT) and v.t.sort == STR):
+                raise Unsupported("yield of a non-string value %r" % (v,))
+            s = s.fork()
+            s.ghost["yielded"] = tm.seqcat(s.ghost["yielded"], tm.sequnit(v.t))
+            return [(s, "ok", NONE)]
+
+        return self.bind(self.eval(node.value, st, fr), fn)
+
     def e_Lambda(self, node, st, fr):
         raise Unsupported("lambda")
 
@@ -874,7 +889,35 @@ class Executor(object):
         return self.bind(self.eval(gen.iter, st, fr), fn)
 
     # ------------------------------------------------------------------ calls
+    def _count_idiom(self, node, st, fr):
+        """sum(1 for _ in X): the number of items X yields"""
+        g = node.args[0]
+        gen = g.generators[0]
+
+        def fn(s, it):
+            if isinstance(it, VObj):
+                outs = self.call_method(it, "__iter__", [], {}, s, fr)
+            else:
+                outs = [(s, "ok", it)]
+            res = []
+            for (s2, tag, v) in outs:
+                if tag != "ok":
+                    res.append((s2, tag, v))
+                elif isinstance(v, VT) and v.t.sort.startswith("(Seq"):
+                    res.append((s2, "ok", VT(tm.seqlen(v.t))))
+                elif isinstance(v, (VList, VTuple)):
+                    res.append((s2, "ok", VT(tm.I(len(s2.get(v, "items") if isinstance(v, VList) else v.items)))))
+                else:
+                    raise Unsupported("sum(1 for _ in %r)" % (v,))
+            return res
+
+        return self.bind(self.eval(gen.iter, st, fr), fn)
+
     def e_Call(self, node, st, fr):
+        if (isinstance(node.func, ast.Name) and node.func.id == "sum" and len(node.args) == 1 and not node.keywords
+                and isinstance(node.args[0], ast.GeneratorExp) and isinstance(node.args[0].elt, ast.Constant)
+                and node.args[0].elt.value == 1 and len(node.args[0].generators) == 1 and not node.args[0].generators[0].ifs):
+            return self._count_idiom(node, st, fr)
         # super() with or without arguments
         if isinstance(node.func, ast.Name) and node.func.id == "super":
             if fr.cls is None or "self" not in st.env and "cls" not in st.env:
@@ -1089,10 +1132,26 @@ class Executor(object):
         if new_obj is not None:
             nfr.new_obj = new_obj
         body = strip_docstring(fn.node.body)
+        # generator function: run eagerly, the values yielded are collected in a ghost sequence which is the result
+        # (sound for generators that terminate and are consumed completely; an exception surfaces at the call instead
+        # of at the first next(): the same set of outcomes)
+        is_gen = _has_yield(fn.node)
+        outer_yield = s0.ghost.get("yielded")
+        if is_gen:
+            s0.ghost["yielded"] = tm.seqempty(STR)
         res = []
         for (s, tag, v) in self.block(body, s0, nfr):
             s = s.fork()
             s.env = dict(saved)
+            if is_gen:
+                got = s.ghost.get("yielded")
+                if outer_yield is None:
+                    s.ghost.pop("yielded", None)
+                else:
+                    s.ghost["yielded"] = outer_yield
+                if tag in ("ok", "ret"):
+                    res.append((s, "ok", VT(got, "list")))
+                    continue
             if tag == "ok":
                 res.append((s, "ok", NONE))
             elif tag == "ret":
@@ -1479,6 +1538,18 @@ class Executor(object):
 
     def s_Assert(self, node, st, fr):
         return [(st, "ok", None)]
+
+
+def _has_yield(fnode):
+    todo = list(ast.iter_child_nodes(fnode))
+    while todo:
+        n = todo.pop()
+        if isinstance(n, (ast.Yield, ast.YieldFrom)):
+            return True
+        if isinstance(n, (ast.FunctionDef, ast.AsyncFunctionDef, ast.Lambda, ast.ClassDef)):
+            continue
+        todo.extend(ast.iter_child_nodes(n))
+    return False
 
 
 class _Star(object):
